@@ -14,6 +14,8 @@ CHECKS = {
          "Every call of every recorded execution returns exactly what the TLA+ denotational oracle computes from the current definitions; no formula of an element that held a value is entered (observed with sys.monitoring); all spellings bind to the element Bind() gives. Design level: TLC explores the small-step executor model exhaustively on a small instance; all histories of that instance up to the bound are replayed on the real library and judged by the same trace specification.", "§4 C01"),
  "C02": ("model_checking", "trace validation: after every operation every held value = Den(definitions from edits only); exhaustive (edit x path) pairs enumerated by TLC from MxEval and replayed",
          "After every operation of every recorded history TLC compares each held, non-input value with the oracle evaluated on definitions that were reconstructed from the edit arguments alone. TLC enumerates all two-operation histories (every edit kind x every dependency-path kind of the instance) and all are replayed on the code; MxEval is model-checked for depth-3 histories.", "§4 C02"),
+ "C04": ("model_checking", "trace validation of write/read events: full projection of the re-read model (both formats, chained) = projection of the written one; read-back values = TLA+ oracle; zip members = directory files",
+         "Programs of all three worlds (static, inheritance, ItemSpaces) decorated with docs (quotes, backslashes, non-ASCII), literal/picklable/object-valued references in all modes, inputs incl. ItemSpace inputs, are written in both formats at two points of a history, read back, and written/read again; TLC compares the complete projections (space tree, bases, parameter formulas with source, cells source/parameters/flags/docs, references with values/modes/targets, inputs), requires every queried cells of the re-read model to return the oracle value, the source model to be unchanged, and the archive members to equal the directory files.", "§4 C04"),
  "C05": ("model_checking", "trace validation with raise/None/recursion-limit faults at every op position + MxEval model check (Unwind/rollback actions)",
          "Formulas with Raise / return-None operations at every position and a reduced recursion limit are generated; after each failing call TLC checks error identity, that no element on the failing chain holds a value, completed elements keep theirs, the executor is idle, and NoStale; later calls must equal the oracle (retryable).", "§4 C05"),
  "C06": ("model_checking", "trace validation: discarded set = oracle-computed transitive dependents (DepsStar), survivors untouched and not re-executed; both recalc settings",
